@@ -108,8 +108,9 @@ def net_cfg(net: dict, **over) -> dict:
     if net.get("split_engines") and len(scfgs) >= 2 and len(tcfgs) >= 2:
         # two tasking engines, each with its own sensors and targets (first sensor + first half of the targets / the rest)
         h = max(1, len(tcfgs) // 2)
+        second = tcfgs[h:] + ([tcfgs[0]] if net.get("shared_target") else [])  # shared_target: the first target is tracked through both engines
         engines = [sk.engine_cfg(1, tcfgs[:h], scfgs[:1], decision=net["policy"], reward=net["reward"], metrics=metrics, decision_params=dparams),
-                   sk.engine_cfg(2, tcfgs[h:], scfgs[1:], decision=net["policy"], reward=net["reward"], metrics=metrics, decision_params=dparams)]
+                   sk.engine_cfg(2, second, scfgs[1:], decision=net["policy"], reward=net["reward"], metrics=metrics, decision_params=dparams)]
     return sk.scenario_cfg(start, stop, net["step"], engines, **kw)
 
 
